@@ -71,6 +71,14 @@ func c10Corpus(thorough bool) []c10Req {
 			out = append(out, c10Req{Name: m + "/" + biasLabel(core[k]), Body: J(withBiases(root, []M{core[k]}))})
 		}
 	}
+	for _, pol := range []string{"allow", "current", "newer", "random"} {
+		out = append(out, c10Req{Name: "majorityHeuristic/ties-draw=" + pol, Body: J(withMP(tieRequest("majorityHeuristic"), M{"drawResolution": pol}))})
+	}
+	for _, r := range defaultsCorpus() {
+		if strings.HasPrefix(r.Name, "defaults/omission/") || strings.HasPrefix(r.Name, "defaults/reversal/") || strings.HasPrefix(r.Name, "defaults/anchoring/inline") {
+			out = append(out, c10Req{Name: "weightedSum/" + strings.TrimPrefix(r.Name, "defaults/"), Body: J(r.Req)})
+		}
+	}
 	inv := invalidCorpus()
 	for _, i := range []int{1, 3, 19} {
 		out = append(out, c10Req{Name: inv[i].Name, Body: J(inv[i].Req)})
@@ -229,6 +237,15 @@ func c10Check(c *Case) []Violation {
 	var sc c10Sched
 	jsonUnmarshal(J(c.Params["schedule"]), &sc)
 	loadEntryPoints()
+	if cold, _ := c.Params["cold"].(bool); cold {
+		// cold-start schedule: run it first, compare with the solo responses computed afterwards
+		outA, outB, run := c10Exec(a, b, sc)
+		sa, sb := c10Solo(a, false), c10Solo(b, false)
+		if run.Deadlock || !bytes.Equal(outA, sa.out) || !bytes.Equal(outB, sb.out) {
+			return []Violation{viol(c, "C10/cold-start-response-differs", "as the first requests of the process under schedule %+v the two requests do not get their solo responses", sc)}
+		}
+		return nil
+	}
 	sa, sb := c10Solo(a, false), c10Solo(b, false)
 	if sa.steps == 0 {
 		return []Violation{viol(c, "C10/not-instrumented", "replay needs the instrumented binary (./check.sh replay uses it for C10)")}
@@ -270,6 +287,9 @@ func c10Run(s *Shard) {
 		if len(a.writes) > 0 {
 			s.Count("write_steps", int64(len(a.writes)))
 			s.Notes = append(s.Notes, fmt.Sprintf("W not empty: %s changes package-level state at steps %v", r.Name, a.writes))
+			// the write may happen once per process (lazy initialisation): explore the interleavings around it from a COLD
+			// process, one fresh process per schedule (twins, both orders, preemption just before / at / after each write)
+			c10Cold(s, r, b, a.writes)
 		}
 		solo[i], have[i] = b, true
 		s.Outcome(true, "solo", r.Name, a.steps)
@@ -361,6 +381,82 @@ func c10Run(s *Shard) {
 	}
 }
 
+// ColdMain runs ONE schedule in a fresh process (no request served before) and prints the two responses' hashes.
+func ColdMain(path string) int {
+	b, err := os.ReadFile(path)
+	if err != nil {
+		return 2
+	}
+	var c Case
+	if json.Unmarshal(b, &c) != nil {
+		return 2
+	}
+	a := c10Req{Name: asS(c.Params["a_name"]), Body: []byte(asS(c.Params["a"]))}
+	bb := c10Req{Name: asS(c.Params["b_name"]), Body: []byte(asS(c.Params["b"]))}
+	var sc c10Sched
+	jsonUnmarshal(J(c.Params["schedule"]), &sc)
+	outA, outB, run := c10Exec(a, bb, sc)
+	fmt.Printf("COLD %s %s %v\n", bodyHash(outA), bodyHash(outB), run.Deadlock)
+	return 0
+}
+
+func c10Cold(s *Shard, r c10Req, solo soloInfo, writes []int64) {
+	dir, err := os.MkdirTemp(os.Getenv("VERIF_BUILD_DIR"), "cold-")
+	if err != nil {
+		return
+	}
+	defer os.RemoveAll(dir)
+	self, _ := os.Executable()
+	want := bodyHash(solo.out)
+	seen := map[int64]bool{}
+	var ats []int64
+	for _, w := range writes {
+		for d := int64(-1); d <= 2; d++ {
+			if at := w + d; at >= 1 && at <= solo.steps && !seen[at] {
+				seen[at] = true
+				ats = append(ats, at)
+			}
+		}
+	}
+	if len(ats) > 24 {
+		ats = ats[:24]
+	}
+	for _, at := range ats {
+		for _, order := range [][]int{{0, 1}, {1, 0}} {
+			sc := c10Sched{Order: order, Switches: []verifsched.Switch{{At: at, To: order[1]}}}
+			c := caseFor(r, r, sc)
+			c.Params["cold"] = true
+			f := filepath.Join(dir, "case.json")
+			os.WriteFile(f, J(c), 0o644)
+			s.Evals++
+			s.Count("cold_process_schedules", 1)
+			cmd := exec.Command(self, "cold", f)
+			cmd.Env = append(os.Environ(), "GOMAXPROCS=2")
+			out, err := cmd.CombinedOutput()
+			var ha, hb, dl string
+			ok := false
+			for _, l := range strings.Split(string(out), "\n") {
+				if strings.HasPrefix(l, "COLD ") {
+					fmt.Sscanf(l, "COLD %s %s %s", &ha, &hb, &dl)
+					ok = true
+				}
+			}
+			if err != nil || !ok {
+				t := string(out)
+				if len(t) > 600 {
+					t = t[len(t)-600:]
+				}
+				s.Report([]Violation{viol(c, "C10/cold-start-crash", "two copies of %s as the first requests of a fresh process under schedule %+v: the process died: %v %s", r.Name, sc, err, t)})
+				return
+			}
+			if ha != want || hb != want || dl == "true" {
+				s.Report([]Violation{viol(c, "C10/cold-start-response-differs", "two copies of %s as the very first requests of a fresh process under schedule %+v do not both get the solo response", r.Name, sc)})
+				return
+			}
+		}
+	}
+}
+
 func c10RacePass(c *Case, tier string) []Violation {
 	bin := filepath.Join(os.Getenv("VERIF_BUILD_DIR"), "rdmrace")
 	if _, err := os.Stat(bin); err != nil {
@@ -408,9 +504,33 @@ func c10RacePass(c *Case, tier string) []Violation {
 // RaceMain is the body of the free-running pass (built with -race, no cooperative scheduler, unpatched runtime).
 func RaceMain(tier string) int {
 	corpus := c10Corpus(tier == "thorough")
+	// cold start: the very first requests of the process run concurrently (lazily initialised shared state is written
+	// exactly once per process); their outputs are compared with the solo outputs computed afterwards
+	coldOuts := make([][]byte, len(corpus))
+	{
+		var wg sync.WaitGroup
+		gate := make(chan struct{})
+		for i := range corpus {
+			wg.Add(1)
+			go func(i int) {
+				defer wg.Done()
+				<-gate
+				coldOuts[i] = corpus[i].run()
+			}(i)
+		}
+		close(gate)
+		wg.Wait()
+	}
 	soloOut := make([][]byte, len(corpus))
 	for i, r := range corpus {
 		soloOut[i] = r.run()
+	}
+	coldMismatch := 0
+	for i := range corpus {
+		if !bytes.Equal(coldOuts[i], soloOut[i]) {
+			coldMismatch++
+			fmt.Printf("MISMATCH request %s answered differently when it was among the first concurrent requests of the process: %s\n", corpus[i].Name, firstDiff(string(soloOut[i]), string(coldOuts[i])))
+		}
 	}
 	rounds, width := 12, 8
 	if tier == "thorough" {
@@ -447,7 +567,7 @@ func RaceMain(tier string) int {
 		}
 	}
 	fmt.Printf("race-pass: %d concurrent executions in %d rounds of %d goroutines, %d mismatches\n", runs, rounds, width, mismatches)
-	if mismatches > 0 {
+	if mismatches+coldMismatch > 0 {
 		return 1
 	}
 	return 0
